@@ -144,6 +144,8 @@ type c02facts struct {
 	waitsUnlessUnsafe bool
 	removeExclFirst   bool
 	persistSyncOrder  []string
+	ackFieldUsers     []string
+	closeTouchesAcks  bool
 }
 
 func extractC02(c *Ctx) c02facts {
@@ -386,6 +388,38 @@ func extractC02(c *Ctx) c02facts {
 			}
 		}
 	}
+	// ---- acknowledgements are released only by persisterLoop: which functions of package index mention
+	// Writer.rootPersisted / Writer.persistedCallbacks at all (replaceRoot appends, persisterLoop grabs)
+	users := map[string]bool{}
+	for _, file := range idx.Files {
+		for _, d := range file.Decls {
+			fd, ok := d.(*ast.FuncDecl)
+			if !ok || fd.Body == nil {
+				continue
+			}
+			name := fd.Name.Name
+			ast.Inspect(fd.Body, func(m ast.Node) bool {
+				if se, ok := m.(*ast.SelectorExpr); ok && (se.Sel.Name == "rootPersisted" || se.Sel.Name == "persistedCallbacks") {
+					users[name] = true
+				}
+				return true
+			})
+		}
+	}
+	f.ackFieldUsers = sortedSet(users)
+	if cl := idx.Func("Writer.close"); cl != nil {
+		for _, x := range callsIn(cl.Body) {
+			// any close(…) other than close(s.closeCh), any send, any call of a func-typed element
+			if x.name == "close" && len(x.call.Args) == 1 && !strings.HasSuffix(selName(x.call.Args[0]), ".closeCh") {
+				f.closeTouchesAcks = true
+			}
+			if _, ok := x.call.Fun.(*ast.IndexExpr); ok {
+				f.closeTouchesAcks = true
+			}
+		}
+	} else {
+		c.Refuse("index: (*Writer).close not found")
+	}
 	return f
 }
 
@@ -444,9 +478,11 @@ func genC02(c *Ctx) {
 	fmt.Fprintf(&b, "/-- prepareSegment creates introduction.persisted iff !UnsafeBatch and, after `applied`, blocks on it when non-nil -/\ndef waitsUnlessUnsafe : Bool := %s\n", leanBool(f.waitsUnlessUnsafe))
 	fmt.Fprintf(&b, "/-- remove: openExclusive (error-checked) before os.Remove -/\ndef removeExclFirst : Bool := %s\n", leanBool(f.removeExclFirst))
 	fmt.Fprintf(&b, "/-- FileSystemDirectory.Persist: calls in source order -/\ndef persistSyncOrder : List String := %s\n", leanStrs(f.persistSyncOrder))
+	fmt.Fprintf(&b, "/-- the functions of package index that mention Writer.rootPersisted / Writer.persistedCallbacks -/\ndef ackFieldUsers : List String := %s\n", leanStrs(f.ackFieldUsers))
+	fmt.Fprintf(&b, "/-- Writer.close closes a channel other than closeCh, or invokes an element of a callback slice -/\ndef closeTouchesAcks : Bool := %s\n", leanBool(f.closeTouchesAcks))
 	b.WriteString("\nend BlugeGen.C02\n")
 	c.WriteLean("C02", b.String())
-	c.Summary["facts"] = 14
+	c.Summary["facts"] = 16
 	c.Summary["grabLockPairs"] = f.grabLockPairs
 	c.Summary["directOrder"] = strings.Join(f.directOrder, ">")
 }
